@@ -116,6 +116,17 @@ def check(an: Analysis) -> None:
         if not _in_lock(s.ast, locks):
             ob.fail(f, s.ast, "the wait happens outside the lock: later arrivals overtake the waiting caller")
         arg = s.ast.args[0] if s.ast.args else None  # type: ignore[union-attr]
+        if isinstance(arg, ast.Name):
+            # the waiting time may be computed first (a local / the result of an inlined helper): what reaches the sleep when the window is full
+            from ..kinds import Scenario as _ScnW
+
+            scw = _ScnW(g, d, env(3))
+            for _hop in range(3):
+                vals_ = scw.reaching_values(s, arg.id) if isinstance(arg, ast.Name) else None
+                if vals_ and len(vals_) == 1:
+                    arg = unwrap(vals_[0])
+                else:
+                    break
         lf = linear_form(d, arg) if arg is not None else None
         want = {ENTRIES0: Fraction(1), PERIOD: Fraction(1), NOW: Fraction(-1)}
         if lf is None:
@@ -124,8 +135,10 @@ def check(an: Analysis) -> None:
             ob.fail(f, s.ast, f"the wait is `{fmt_linear(lf)}`, required `{fmt_linear(want)}` (time until the oldest start leaves the window); e.g. `oldest - now` is never positive, so the throttle never waits")
         # full window -> must wait before stamping; free slot -> must not wait
         post_purge = [n for lp in loops for n in [lp]]
-        full = scenario(g, env(3))
-        free = scenario(g, env(2))
+        from ..kinds import Scenario as _ScnF
+
+        full = _ScnF(g, d, env(3)).skip  # (fixpoint with reaching definitions: the waiting time may travel through locals)
+        free = _ScnF(g, d, env(2)).skip
         w = g.must_pass(lambda n: n is s, exits=("exit-return",), skip_edge=both(full, normal_only, _loop_exit_only(g)))
         if w is not None:
             ob.fail(f, s.ast, "[window full] a path starts the call without waiting", CFG.show_path(w))
@@ -211,44 +224,135 @@ def check(an: Analysis) -> None:
                 ob.fail(f, s.ast, "the fullness test runs before old entries were purged", CFG.show_path(w))
     from ..kinds import A_FLOAT, A_INT, Abs, Scenario
 
-    gi = an.cfg(init)
-    dinit = Deps(prog, init)
-    stores = [n for n in gi.nodes if n.kind == "stmt" and isinstance(n.ast, (ast.Assign, ast.AnnAssign)) and getattr(n.ast, "value", None) is not None and dotted(n.ast.targets[0] if isinstance(n.ast, ast.Assign) else n.ast.target) == "self._period"]
-    if not stores:
-        ob.fail(init, None, "self._period is never set")
-    a_delta = Abs("timedelta", "object")
-    for label, value in (("a timedelta", a_delta), ("a float", A_FLOAT), ("an int", A_INT)):
-
-        def base(e: ast.AST, value=value):
-            if is_name(e, "period"):
-                return value
-            return NOVALUE
-
-        sc = Scenario(gi, dinit, base)
-        live = [n for n in stores if n.id in sc.reach]
-        ob.inst(init, None, f"period is {label}: {len(live)} store(s) of self._period")
-        if len(live) != 1:
-            ob.fail(init, stores[0].ast if stores else None, f"with period = {label}, self._period is set {len(live)} times (must be exactly once)")
-            continue
-        from ..kinds import reduce_ifexp
-
-        v = reduce_ifexp(live[0].ast.value, sc.env)  # type: ignore[union-attr]
-        oo = dinit.origins(v.func.value) if isinstance(v, ast.Call) and isinstance(v.func, ast.Attribute) else dinit.origins(v)
-        if value is a_delta:
-            if not (isinstance(v, ast.Call) and isinstance(v.func, ast.Attribute) and v.func.attr == "total_seconds" and oo <= {"param:period"} and oo):
-                ob.fail(init, live[0].ast, "a timedelta period is not converted with total_seconds() (e.g. .seconds drops days and microseconds)")
-        else:
-            if not (oo <= {"param:period"} and oo and not isinstance(v, ast.Call)):
-                ob.fail(init, live[0].ast, "a numeric period is not used as is")
-    lim = prog.cls("helpers.throttling._AsyncThrottle").attr_val.get("_limit", [])
-    if not (len(lim) == 1 and is_name(lim[0], "limit")):
-        ob.fail(init, None, "self._limit does not hold the configured limit")
+    tcls = prog.cls("helpers.throttling._AsyncThrottle")
     wrap = prog.fn("helpers.throttling.throttle._wrap")
-    for c in [c for c in wrap.own_nodes() if isinstance(c, ast.Call) and an.callee(wrap, c) == prog.cls("helpers.throttling._AsyncThrottle").qualname]:
+    dwrap = Deps(prog, wrap)
+    ctor_calls = [c for c in wrap.own_nodes() if isinstance(c, ast.Call) and an.callee(wrap, c) == tcls.qualname]
+    if len(ctor_calls) != 1:
+        ob.missing(wrap, None, f"throttle() builds {len(ctor_calls)} throttle objects (expected one)")
+    a_delta = Abs("timedelta", "object")
+    iparams = [a.arg for a in init.node.args.posonlyargs + init.node.args.args][1:] + [a.arg for a in init.node.args.kwonlyargs]
+    for c in ctor_calls:
         ob.inst(wrap, c)
-        kws = {k.arg: k.value for k in c.keywords}
-        if not (is_name(kws.get("limit"), "limit") and is_name(kws.get("period"), "period") and c.args and is_name(c.args[0], "function")):
-            ob.fail(wrap, c, "throttle() does not pass function/limit/period on unchanged")
+        passed: dict[str, ast.AST] = {p_: a_ for p_, a_ in zip(iparams, c.args)}
+        passed.update({k.arg: k.value for k in c.keywords if k.arg})
+        fn_p = iparams[0] if iparams else "function"
+        if not (is_name(passed.get(fn_p), "function")):
+            ob.fail(wrap, c, "throttle() does not pass the function on to the throttle object")
+        lim_p = next((p_ for p_, v in passed.items() if dwrap.origins(v) == {"param:limit"}), None)
+        per_p = next((p_ for p_, v in passed.items() if "param:period" in dwrap.of(v)), None)
+        if lim_p is None or per_p is None:
+            ob.fail(wrap, c, "throttle() does not pass limit / period on to the throttle object")
+            continue
+        lim = tcls.attr_val.get("_limit", [])
+        if not (len(lim) == 1 and is_name(lim[0], lim_p) and is_name(passed[lim_p], "limit")):
+            ob.fail(init, None, "self._limit does not hold the configured limit")
+        # the period reaches self._period in seconds: converted where the object is built or in its __init__ (either, not none)
+        for label, value in (("a timedelta", a_delta), ("a float", A_FLOAT), ("an int", A_INT)):
+            got = _period_value(an, wrap, passed[per_p], "period", value)
+            if got is _UNKNOWN:
+                raise AnalysisError(f"C15.5: cannot follow the period from throttle() into the throttle object for {label}")
+            gi = an.cfg(init)
+            dinit = Deps(prog, init)
+            stores = [n for n in gi.nodes if n.kind == "stmt" and isinstance(n.ast, (ast.Assign, ast.AnnAssign)) and getattr(n.ast, "value", None) is not None and dotted(n.ast.targets[0] if isinstance(n.ast, ast.Assign) else n.ast.target) == "self._period"]
+            if not stores:
+                ob.fail(init, None, "self._period is never set")
+                break
+
+            def base(e: ast.AST, got=got, per_p=per_p):
+                if is_name(e, per_p):
+                    return got
+                return NOVALUE
+
+            sc = Scenario(gi, dinit, base)
+            live = [n for n in stores if n.id in sc.reach]
+            ob.inst(init, None, f"period is {label}: {len(live)} store(s) of self._period")
+            if len(live) != 1:
+                ob.fail(init, stores[0].ast, f"with period = {label}, self._period is set {len(live)} times (must be exactly once)")
+                continue
+            final = _period_value(an, init, live[0].ast.value, per_p, got)  # type: ignore[union-attr]
+            if final is _UNKNOWN:
+                raise AnalysisError(f"C15.5: cannot evaluate what self._period holds for {label}")
+            want = _SECONDS if value is a_delta else value
+            if final is not want:
+                if value is a_delta:
+                    ob.fail(init if got is a_delta else wrap, live[0].ast if got is a_delta else c, "a timedelta period is not converted with total_seconds() (e.g. .seconds drops days and microseconds)")
+                else:
+                    ob.fail(init, live[0].ast, "a numeric period is not used as is")
+
+
+_UNKNOWN = object()
+_SECONDS = object()  # <timedelta>.total_seconds()
+
+
+def _period_value(an: Analysis, fi: FunctionInfo, e: ast.AST, pname: str, pvalue: object, depth: int = 3) -> object:
+    """Abstract value of expression `e` in function `fi` when its parameter `pname` holds `pvalue`
+    (a timedelta / float / int abstract value, or _SECONDS): follows conditional expressions, one level of helper calls
+    h(<period>) and `.total_seconds()`."""
+    from ..kinds import Abs, Scenario, reduce_ifexp
+
+    prog = an.prog
+    d = Deps(prog, fi)
+
+    def env(x: ast.AST):
+        if is_name(x, pname):
+            return pvalue
+        return NOVALUE
+
+    e = unwrap(d.inline(e))
+    e = reduce_ifexp(e, env)
+    e = unwrap(e) if e is not None else None
+    if e is None or depth == 0:
+        return _UNKNOWN
+    if is_name(e, pname):
+        return pvalue
+    if isinstance(e, ast.Call) and isinstance(e.func, ast.Attribute) and e.func.attr == "total_seconds" and not e.args:
+        inner = _period_value(an, fi, e.func.value, pname, pvalue, depth - 1)
+        return _SECONDS if isinstance(inner, Abs) and inner.mro[0] == "timedelta" else _UNKNOWN
+    if isinstance(e, ast.Call) and isinstance(e.func, ast.Attribute) and e.func.attr in ("seconds", "microseconds", "days"):
+        return object()
+    if any(isinstance(x, ast.Attribute) and x.attr in ("seconds", "microseconds", "days") for x in ast.walk(e)):
+        return object()  # built from lossy readings of the timedelta (.seconds drops days, ...) instead of total_seconds()
+    if isinstance(e, ast.Call) and isinstance(e.func, ast.Name) and e.func.id in ("float", "int", "abs") and len(e.args) == 1 and not e.keywords:
+        return _period_value(an, fi, e.args[0], pname, pvalue, depth - 1)
+    if isinstance(e, ast.Call):
+        t = prog.functions.get(an.callee(fi, e) or "")
+        if t is not None and len(e.args) + len(e.keywords) == 1:
+            arg = e.args[0] if e.args else e.keywords[0].value
+            av = _period_value(an, fi, arg, pname, pvalue, depth - 1)
+            if av is _UNKNOWN:
+                return _UNKNOWN
+            tp = t.param_names()[0] if t.param_names() else None
+            if tp is None:
+                return _UNKNOWN
+            gt = an.cfg(t)
+            dt = Deps(prog, t)
+
+            def env_t(x: ast.AST):
+                if is_name(x, tp):
+                    return av
+                return NOVALUE
+
+            sct = Scenario(gt, dt, env_t)
+            outs = set()
+            for r in [n for n in gt.nodes if n.kind == "return" and n.id in sct.reach]:
+                rv = r.ast.value  # type: ignore[union-attr]
+                # a match capture of the parameter denotes the parameter
+                caps = {x.name for x in ast.walk(t.node) if isinstance(x, ast.MatchAs) and x.name and x.name != tp}
+                val = _period_value(an, t, rv, tp, av, depth - 1) if rv is not None else _UNKNOWN
+                if val is _UNKNOWN and rv is not None:
+                    rv2 = unwrap(rv)
+                    if isinstance(rv2, ast.Name) and rv2.id in caps and dt.origins(rv2) == {f"param:{tp}"}:
+                        val = av
+                    elif isinstance(rv2, ast.Call) and isinstance(rv2.func, ast.Attribute) and rv2.func.attr == "total_seconds" and isinstance(rv2.func.value, ast.Name) and dt.origins(rv2.func.value) == {f"param:{tp}"} and isinstance(av, Abs) and av.mro[0] == "timedelta":
+                        val = _SECONDS
+                outs.add(val if not isinstance(val, object) or val in (_UNKNOWN, _SECONDS) or isinstance(val, Abs) else val)
+            if len(outs) == 1:
+                return outs.pop()
+            return _UNKNOWN
+    if isinstance(e, ast.Name) and d.origins(e) == {f"param:{pname}"}:
+        return pvalue  # a pattern capture / alias of the parameter
+    return _UNKNOWN
 
 
 def _loop_exit_only(g: CFG):
